@@ -1,6 +1,6 @@
 (* C13 — early_stopping stops exactly per its documented no-improvement rule.
    Only statements; proofs live in proofs/C13_proofs.v. *)
-Require Import Base StopRun Converter Driver DriverObs DriverFacts StopFacts C13_proofs.
+Require Import Base StopRun Converter Driver DriverObs DriverFacts StopFacts C13_proofs PyPrims PyPrimsQ DriverGen DriverTie.
 
 (* the code's predicate (argmax position, then tolerances) equals the rule as the property words it:
    k > n and (best of last n <= best of the earlier ones, or exceeds it by < tol_abs, or by < tol_rel
@@ -33,3 +33,33 @@ Example C13_zero_baseline_refuted_unfixed :
   no_change_unfixed_pyfloat [0; 1] (mkEarly (Some 1) None (Some (5, 1))) = Err ZeroDivisionError
   /\ no_change [0; 1] (mkEarly (Some 1) None (Some (5, 1))) = Ok false.
 Proof. exact zero_baseline_raised_unfixed. Qed.
+
+(* ---------- the same for the definitions GENERATED from /repo's _stop_run.py (generated/DriverGen.v) ---------- *)
+(* the translated no_change is the documented rule, for every finite history, n >= 1, tolerance setting and both
+   spellings of an absent tolerance (key missing / value None) *)
+Theorem C13_source_no_change_is_rule : forall zs cfg n pa pr, es_n cfg = Some n -> 1 <= n -> rel_wf cfg ->
+  g_no_change (map inject_Z zs) (early_of cfg pa pr) = Ok (nc_spec zs cfg).
+Proof. exact source_no_change_is_rule. Qed.
+Print Assumptions C13_source_no_change_is_rule.
+
+Theorem C13_source_never_raises : forall zs cfg pa pr, zs <> [] -> rel_wf cfg ->
+  exists b, g_no_change (map inject_Z zs) (early_of cfg pa pr) = Ok b.
+Proof. exact source_no_change_never_raises. Qed.
+Print Assumptions C13_source_never_raises.
+
+(* the translated StopRun.check refines the model's check (which C13_stops_exactly is about), clock reads included *)
+Theorem C13_source_check_refines : forall clk k c pa pr start best sl,
+  (forall e, st_early c = Some e -> rel_wf e /\ early_nonempty e pa pr) ->
+  g_StopRun_check clk k (stop_of c pa pr start best sl) =
+  let k' := if check_reads_clock c then S k else k in
+  match check c start (clk k) best sl with
+  | Ok b => Ok ((stop_of c pa pr start best sl, b), k')
+  | Err e => Err e
+  end.
+Proof. exact check_tie. Qed.
+Print Assumptions C13_source_check_refines.
+
+Example C13_source_nonvacuous :
+  g_no_change (map inject_Z [1; 3; 2; 2]) (early_of (mkEarly (Some 2) None (Some (5, 1))) false false) = Ok true
+  /\ rel_wf (mkEarly (Some 2) None (Some (5, 1))).
+Proof. split; [vm_compute; reflexivity|]. intros rn rd H. inversion H. reflexivity. Qed.
